@@ -9,6 +9,7 @@ produced for it (so that the new ones differ) and the working rules; nothing els
 import glob, json, os, sys
 
 ROOT = os.path.dirname(os.path.dirname(os.path.abspath(__file__)))
+NMUT = int(os.environ.get('SEED_N', '2'))     # changes asked of each agent
 
 
 def main():
@@ -52,14 +53,14 @@ Mechanism:
 Earlier rounds already produced these changes for this property — yours must be DIFFERENT from all of them (different code location, or a different clause of the property, or a clearly different triggering condition):
 {chr(10).join(prev)}
 
-YOUR TASK: produce 2 NEW code changes (mutants) to the project, each of which
+YOUR TASK: produce {NMUT} NEW code change{'s' if NMUT>1 else ''} (mutant{'s' if NMUT>1 else ''}) to the project, each of which
   1. still compiles:  cd {wt} && {env} go build ./...
   2. still passes the project's existing test suite, unedited:  cd {wt} && {env} go test -vet=off -count=1 -timeout 25m ./...   (three tests in pkg/reverseproxy — TestInjectHeader, TestPreserveHost, TestAppendForwardHeader — need the network and ALWAYS fail in this sandbox, also on the unchanged tree; ignore exactly those three. Everything else must pass. Running only the packages you touched plus their dependants is fine while iterating, but run the affected packages fully at the end; the pkg/http2 suite takes a few minutes);
   3. BREAKS the property above — the statement as written, not some other behaviour — in a way that needs something SPECIFIC to manifest: a particular input shape, boundary value, operation order, schedule, configuration or history. Prefer clauses of the statement and parts of the quantifier that the earlier rounds did NOT touch, and code locations they did not touch. Changes that break every run trivially are not interesting; neither are changes that the existing tests catch;
   4. is REALISTIC: the kind of mistake or "harmless-looking" refactor/optimisation a maintainer could plausibly commit. No sabotage comments, no dead weird code. Keep each patch small (typically 1-15 changed lines), touching only non-test source files of the project;
   5. comes with a DEMONSTRATION: a small self-contained Go test file or program (NOT part of the patch) plus the exact command to run it, which shows the property violated on the patched tree and holding on the unpatched tree. Run it both ways and record the observed outputs.
 
-DELIVERABLES, for k = {k0}, {k0 + 1}, in {rd}/{pid}/out/m<k>/ :
+DELIVERABLES, for k = {', '.join(str(k0+i) for i in range(NMUT))}, in {rd}/{pid}/out/m<k>/ :
   - patch.diff  : output of `git -C {wt} diff` for that mutant only (must apply with `git apply` to a clean checkout of the same commit);
   - demo/       : the demonstration file(s) and a demo/README.md with the exact command(s) (as indented or fenced shell lines starting with mkdir / cp / cd / GOFLAGS= / go test / go run, using absolute paths), where to place the files, and the observed output with and without the patch;
   - meta.json   : {{"property": "{pid}", "mutant": "m<k>", "files": [...], "summary": "<one sentence: what was changed>", "breaks_clause": "<which clause of the property>", "trigger": "<what specific input/schedule/config is needed to see it>", "tests_pass": true, "test_command": "<what you ran>", "notes": "..."}}
